@@ -116,6 +116,34 @@ Inductive query :=
 Definition q_name (q : query) : str := match q with QSel n _ => n | QAgg _ _ n _ => n end.
 Definition q_matchers (q : query) : list matcher := match q with QSel _ ms => ms | QAgg _ _ _ ms => ms end.
 
+(* ---------- the time range of a query (dtypeutils.go, metricssearch.go, unrotatedquery.go) ----------
+   MetricsTimeRange.CheckInRange: both ends inclusive *)
+Definition in_range (lo hi t : Z) : bool := (lo <=? t)%Z && (t <=? hi)%Z.
+
+(* MetricsTimeRange.CheckRangeOverLap(earliest, latest): the three disjuncts of the Go code, in order.
+   Decides whether a block (block summary LowTs/HighTs) or a segment is read at all. *)
+Definition range_overlap (lo hi earliest latest : Z) : bool :=
+  ((lo <=? earliest)%Z && (earliest <=? hi)%Z) ||
+  ((lo <=? latest)%Z && (latest <=? hi)%Z) ||
+  ((earliest <=? lo)%Z && (hi <=? latest)%Z).
+
+(* blockWorker (rotated blocks) and SearchUnrotatedMetricsBlock (open block): the iterator yields EVERY
+   datapoint of the series in the block, in arrival order (the writer appends datapoints as they
+   arrive, timestamps need not increase); a datapoint outside the range is skipped, the loop goes on *)
+Definition clip_pts (lo hi : Z) (pts : list pt) : list pt :=
+  filter (fun p => in_range lo hi (fst p)) pts.
+
+(* a block whose summary does not overlap the range is not read *)
+Definition read_block (lo hi : Z) (bounds : Z * Z) (pts : list pt) : list pt :=
+  if range_overlap lo hi (fst bounds) (snd bounds) then clip_pts lo hi pts else [].
+
+Definition clip_series (lo hi : Z) (s : series) : series :=
+  {| s_name := s_name s; s_labels := s_labels s; s_chunks := map (clip_pts lo hi) (s_chunks s) |}.
+
+(* what the query engine sees of the store for the range [lo, hi]: the tags trees are unchanged
+   (a series without a datapoint in the range is still found by the tag search), the datapoints are clipped *)
+Definition clip_db (lo hi : Z) (db : list series) : list series := map (clip_series lo hi) db.
+
 (* ---------- PromQL specification (absent label = empty string) ---------- *)
 Section WithRegex.
 (* the regular-expression engine (Go regexp, fully anchored): pattern -> value -> matched *)
@@ -542,6 +570,14 @@ Definition run_arith_prefix (op : binop) (q1 q2 : query) (db : list series) : li
                    end in
           (fst tv, bin_apply op (snd tv) y)) (snd e))]
     end) (run_query q1 db).
+
+(* ---------- queries over a time range [lo, hi] ---------- *)
+Definition result_at_range (lo hi : Z) (q : query) (db : list series) (gid : str) (t : Z) : option Q :=
+  result_at q (clip_db lo hi db) gid t.
+Definition run_query_range (lo hi : Z) (q : query) (db : list series) : list (str * list (Z * Q)) :=
+  run_query q (clip_db lo hi db).
+Definition run_arith_range (lo hi : Z) (op : binop) (q1 q2 : query) (db : list series) : list (str * list (Z * Q)) :=
+  run_arith op q1 q2 (clip_db lo hi db).
 
 End WithRegex.
 
